@@ -246,7 +246,7 @@ def parse_events(path):
                 continue
             p = line.split()
             if len(p) != 5 or cur is None:
-                continue
+                raise TraceError(f"malformed event-log line: {line[:80]!r}")
             cur[1].append((int(p[0]), p[1], int(p[2]), int(p[3]), int(p[4])))
     return phases
 
